@@ -136,7 +136,7 @@ def _eq_variant(cls, kind):
 
 
 def run_scenario(dist, cfg, attach_at, vals, reattach=0, expr_guard=False, two=False,
-                 same_cls=False, inst_bound=False, lkind=None, only=None):
+                 same_cls=False, inst_bound=False, lkind=None, only=None, lazy=False):
     """attach_at: 0, 1, 2 = L3 attached before the 1st / 2nd / 3rd event; None = never."""
     asyn = cfg.engine == "async"
     if same_cls:
@@ -182,7 +182,9 @@ def run_scenario(dist, cfg, attach_at, vals, reattach=0, expr_guard=False, two=F
             ls = ls + ls[:1]          # the same object listed twice in the constructor
         p = Pair(built, cfg, listeners=ls)
         msg = p.construct()
-        if msg is None and asyn:
+        if msg is None and asyn and not lazy:
+            # (lazy: no explicit activation - the late listener is attached to an async machine
+            # that is not active yet, the first event activates it)
             msg = p.activate()
         if msg:
             return f"instance {k} construct: {msg}", 1
@@ -652,24 +654,28 @@ def worker(block):
                         # an expression guard are still read once per provider
                         variants += [(1, False, False, False, None)]
                     variants = [v + (None,) for v in variants]
+                    if cfg.engine == "async" and uses_l3 and attach_at == 0:
+                        variants.append((0, False, False, False, None, None, True))
                     if cfg.engine == "async" and len(dist) == 1:
                         # mixed listeners: only one of the constructor listeners is a coroutine
                         # provider; the machine must still run (and await) on the async engine
                         variants += [(0, False, False, False, None, "L1"),
                                      (0, False, False, False, None, "L2")]
-                    for (reattach, two, same_cls, inst_bound, lkind, only) in variants:
+                    for variant in variants:
+                        (reattach, two, same_cls, inst_bound, lkind, only) = variant[:6]
+                        lazy = len(variant) > 6 and variant[6]
                         res.stats["evaluations"] += 1
                         sc = {"dist": {k: sorted(v) for k, v in dist.items()},
                               "cfg": list(cfg), "attach_at": attach_at,
                               "vals": [[list(k), v] for k, v in vals.items()],
                               "reattach": reattach, "two": two, "same_cls": same_cls,
                               "inst_bound": inst_bound, "lkind": lkind, "only": only,
-                              "expr": kind == "expr"}
+                              "expr": kind == "expr", "lazy": lazy}
                         try:
                             with deadline(30):
                                 msg, steps = run_scenario(dist, cfg, attach_at, vals, reattach,
                                                           kind == "expr", two, same_cls,
-                                                          inst_bound, lkind, only)
+                                                          inst_bound, lkind, only, lazy)
                         except Ambiguous:
                             res.stats["ambiguous_skipped"] += 1
                             continue
@@ -757,5 +763,5 @@ def replay(sc):
     vals = {tuple(k): v for k, v in sc["vals"]}
     msg, _ = run_scenario(dist, Cfg(*sc["cfg"]), sc["attach_at"], vals, sc["reattach"],
                           sc["expr"], sc["two"], sc["same_cls"], sc.get("inst_bound", False),
-                          sc.get("lkind"), sc.get("only"))
+                          sc.get("lkind"), sc.get("only"), sc.get("lazy", False))
     return msg
